@@ -589,6 +589,12 @@ pub trait Elt: Numeric + Primitive + El + PartialOrd + FromUsize + std::fmt::Deb
         k: Option<&Self>,
     ) -> RM<Self>;
     fn rec_real(x: &Rc<Self>, op: &str, k: Option<&Self>) -> Rc<Self>;
+    /// are two numbers the same answer (floats: NaN = NaN, bit patterns otherwise)
+    fn eqv(&self, other: &Self) -> bool {
+        self == other
+    }
+    /// exact element type: numbers are printed and compared with the model
+    const EXACT: bool = true;
 }
 
 macro_rules! real_body_full {
@@ -639,30 +645,32 @@ macro_rules! real_body_lite {
     }};
 }
 
-impl Elt for Fp {
-    fn t_real_full<S: TensorRef<(Fp, Index), D>, const D: usize>(
-        v: RecordTensor<'static, Fp, S, D>,
+macro_rules! impl_elt_real {
+    ($T:ty, { $($extra:tt)* }) => {
+impl Elt for $T {
+    fn t_real_full<S: TensorRef<($T, Index), D>, const D: usize>(
+        v: RecordTensor<'static, $T, S, D>,
         op: &str,
         via: &str,
-        k: Option<&Fp>,
-    ) -> RT<Fp, D> {
+        k: Option<&$T>,
+    ) -> RT<$T, D> {
         real_body_full!(v, op, via, k)
     }
-    fn t_real_lite<S: TensorRef<(Fp, Index), D>, const D: usize>(v: RecordTensor<'static, Fp, S, D>, op: &str, k: Option<&Fp>) -> RT<Fp, D> {
+    fn t_real_lite<S: TensorRef<($T, Index), D>, const D: usize>(v: RecordTensor<'static, $T, S, D>, op: &str, k: Option<&$T>) -> RT<$T, D> {
         real_body_lite!(v, op, k)
     }
-    fn m_real_full<S: MatrixRef<(Fp, Index)> + NoInteriorMutability>(
-        v: RecordMatrix<'static, Fp, S>,
+    fn m_real_full<S: MatrixRef<($T, Index)> + NoInteriorMutability>(
+        v: RecordMatrix<'static, $T, S>,
         op: &str,
         via: &str,
-        k: Option<&Fp>,
-    ) -> RM<Fp> {
+        k: Option<&$T>,
+    ) -> RM<$T> {
         real_body_full!(v, op, via, k)
     }
-    fn m_real_lite<S: MatrixRef<(Fp, Index)> + NoInteriorMutability>(v: RecordMatrix<'static, Fp, S>, op: &str, k: Option<&Fp>) -> RM<Fp> {
+    fn m_real_lite<S: MatrixRef<($T, Index)> + NoInteriorMutability>(v: RecordMatrix<'static, $T, S>, op: &str, k: Option<&$T>) -> RM<$T> {
         real_body_lite!(v, op, k)
     }
-    fn rec_real(x: &Rc<Fp>, op: &str, k: Option<&Fp>) -> Rc<Fp> {
+    fn rec_real(x: &Rc<$T>, op: &str, k: Option<&$T>) -> Rc<$T> {
         match op {
             "sin" => x.sin(),
             "cos" => x.cos(),
@@ -673,6 +681,23 @@ impl Elt for Fp {
             "npow" => k.unwrap().pow(x),
             other => panic!("harness: unknown real op {}", other),
         }
+    }
+    $($extra)*
+}
+    };
+}
+
+impl_elt_real!(Fp, {});
+impl_elt_real!(f64, {
+    fn eqv(&self, other: &f64) -> bool {
+        (self.is_nan() && other.is_nan()) || self.to_bits() == other.to_bits()
+    }
+    const EXACT: bool = false;
+});
+
+impl El for f64 {
+    fn parse(s: &str) -> f64 {
+        s.parse::<f64>().expect("f64")
     }
 }
 
@@ -1078,8 +1103,8 @@ fn tensor_from<T: Elt, const D: usize>(shape: &Sh, vals: Vec<T>) -> Tensor<T, D>
     Tensor::from(shape_array::<D>(shape), vals)
 }
 
-fn same<T: PartialEq>(a: &[T], b: &[T]) -> bool {
-    a.len() == b.len() && a.iter().zip(b).all(|(x, y)| x == y)
+fn same<T: Elt>(a: &[T], b: &[T]) -> bool {
+    a.len() == b.len() && a.iter().zip(b).all(|(x, y)| x.eqv(y))
 }
 
 fn shape_elems(shape: &Sh) -> usize {
@@ -1127,7 +1152,7 @@ where
             AnyC::T3(c) => format!("{}", c),
             AnyC::M(c) => format!("{}", c),
         };
-        if !display_shows(&shown, &vals) {
+        if T::EXACT && !display_shows(&shown, &vals) {
             return format!("display-does-not-show-the-numbers {}", shown.replace('\n', "|"));
         }
         let scalar = match &slot.shadow {
@@ -1135,7 +1160,7 @@ where
             Some(recs) => {
                 let svals: Vec<T> = recs.iter().map(|r| r.number.clone()).collect();
                 let sconst = recs.iter().all(|r| r.history().is_none());
-                if same(&svals, &vals) && (slot.mixed || sconst == is_const) && slot.c.elements() == vals.len() {
+                if same::<T>(&svals, &vals) && (slot.mixed || sconst == is_const) && slot.c.elements() == vals.len() {
                     "ok".to_string()
                 } else {
                     format!("DIFF(v={},const={})", show_list(&svals), if sconst { 1 } else { 0 })
@@ -2044,7 +2069,9 @@ where
         let verdict = match scalar {
             None => "skip".to_string(),
             Some(Ok(st)) => {
-                if st == table {
+                if st.len() == table.len()
+                    && st.iter().zip(table.iter()).all(|(a, b)| a.len() == b.len() && a.iter().zip(b.iter()).all(|(x, y)| same::<T>(x, y)))
+                {
                     "ok".to_string()
                 } else {
                     format!("DIFF({})", show(&st))
@@ -2111,7 +2138,7 @@ where
         let scalar = match &srec {
             None => "skip".to_string(),
             Some(sr) => {
-                if sr.number == number && sr.history().is_none() == is_const {
+                if sr.number.eqv(&number) && sr.history().is_none() == is_const {
                     "ok".to_string()
                 } else {
                     format!("DIFF(v={},const={})", sr.number, if sr.history().is_none() { 1 } else { 0 })
@@ -2238,6 +2265,103 @@ where
             },
         };
         format!("ok ## layout={}", l)
+    }
+
+    /// Reduced vocabulary for the `f64` cases (owned operands, all-references forms): keeps the
+    /// number of instantiations of the generic library code at a third element type small.
+    pub fn step_lite(&mut self, toks: &[&str]) -> String {
+        match toks[0] {
+            "vars" | "consts" if toks.len() >= 5 => self.create(toks),
+            "clear" => self.clear_line(toks),
+            "reset" if toks.len() >= 2 => self.reset_line(toks),
+            "derivs" if toks.len() >= 2 => self.derivs_line(toks),
+            "add" | "sub" | "emul" | "ediv" | "binary" | "matmul" if toks.len() >= 4 => self.binary_lite_line(toks),
+            "addn" | "subn" | "muln" | "divn" | "subsw" | "divsw" | "pown" | "npow" if toks.len() >= 4 => self.unary_lite_line(toks),
+            "neg" | "sin" | "cos" | "exp" | "ln" | "sqrt" | "unary" if toks.len() >= 3 => self.unary_lite_line(toks),
+            _ => "bad-op".into(),
+        }
+    }
+
+    fn unary_lite_line(&mut self, toks: &[&str]) -> String {
+        let op = toks[0];
+        let (res, atok, k): (&str, &str, Option<T>) = match op {
+            "npow" => (toks[1], toks[3], Some(T::parse(toks[2]))),
+            "addn" | "subn" | "muln" | "divn" | "subsw" | "divsw" | "pown" => (toks[1], toks[2], Some(T::parse(toks[3]))),
+            _ => (toks[1], toks[2], None),
+        };
+        let (an, spec, _vs, offs) = match self.operand(atok) {
+            Ok(x) => x,
+            Err(e) => return e,
+        };
+        if !matches!(spec, ViewSpec::Own) {
+            return "bad-view".into();
+        }
+        let fns: Option<(F1<T>, F1<T>)> = if op == "unary" { Some(unary_fn::<T>(opt_arg("fn", toks).unwrap())) } else { None };
+        let (kr, fr) = (k.as_ref(), fns.as_ref());
+        let out: Result<AnyC<T>, PanicKind> = match &self.slots[&an].c {
+            AnyC::T1(c) => catch(|| AnyC::T1(t_un_lite::<T, _, 1>(c.clone(), op, kr, fr))),
+            AnyC::T2(c) => catch(|| AnyC::T2(t_un_lite::<T, _, 2>(c.clone(), op, kr, fr))),
+            AnyC::M(c) => catch(|| AnyC::M(m_un_lite::<T, _>(c.clone(), op, kr, fr))),
+            _ => return "bad-kind".into(),
+        };
+        let out = match out {
+            Ok(c) => c,
+            Err(kind) => return panic_str(kind),
+        };
+        let shadow = self
+            .shadow_view(&an, &offs)
+            .and_then(|recs| catch(|| recs.iter().map(|x| scalar_unary::<T>(x, op, kr, fr)).collect::<Vec<Rc<T>>>()).ok());
+        self.put(res, out, shadow);
+        self.answer(res)
+    }
+
+    fn binary_lite_line(&mut self, toks: &[&str]) -> String {
+        let op = toks[0];
+        let res = toks[1];
+        let (a, b) = match (self.operand(toks[2]), self.operand(toks[3])) {
+            (Ok(a), Ok(b)) => (a, b),
+            (Err(e), _) | (_, Err(e)) => return e,
+        };
+        if !matches!(a.1, ViewSpec::Own) || !matches!(b.1, ViewSpec::Own) {
+            return "bad-view".into();
+        }
+        let fns: Option<(F2<T>, F2<T>, F2<T>)> = if op == "binary" { Some(bfn_triple::<T>(opt_arg("fn", toks).unwrap())) } else { None };
+        let fr = fns.as_ref();
+        let out: Result<AnyC<T>, PanicKind> = match (&self.slots[&a.0].c, &self.slots[&b.0].c) {
+            (AnyC::T2(x), AnyC::T2(y)) if op == "matmul" => catch(|| AnyC::T2(t_matmul_lite::<T, _, _>(x.clone(), y.clone()))),
+            (AnyC::M(x), AnyC::M(y)) if op == "matmul" => catch(|| AnyC::M(m_matmul_lite::<T, _, _>(x.clone(), y.clone()))),
+            (AnyC::T1(x), AnyC::T1(y)) => catch(|| AnyC::T1(t_bin_lite::<T, _, _, 1>(x.clone(), y.clone(), op, fr))),
+            (AnyC::T2(x), AnyC::T2(y)) => catch(|| AnyC::T2(t_bin_lite::<T, _, _, 2>(x.clone(), y.clone(), op, fr))),
+            (AnyC::M(x), AnyC::M(y)) => catch(|| AnyC::M(m_bin_lite::<T, _, _>(x.clone(), y.clone(), op, fr))),
+            _ => return "bad-kind".into(),
+        };
+        let out = match out {
+            Ok(c) => c,
+            Err(kind) => return panic_str(kind),
+        };
+        let shadow: Option<Result<Vec<Rc<T>>, PanicKind>> = match (self.shadow_view(&a.0, &a.3), self.shadow_view(&b.0, &b.3)) {
+            (Some(ra), Some(rb)) => Some(if op == "matmul" {
+                let (m, n, l) = (a.2[0].1, a.2[1].1, b.2[1].1);
+                catch(|| scalar_matmul::<T>(&ra, &rb, m, n, l))
+            } else {
+                catch(|| ra.iter().zip(rb.iter()).map(|(x, y)| scalar_binary::<T>(x, y, op, fr)).collect::<Vec<Rc<T>>>())
+            }),
+            _ => None,
+        };
+        match shadow {
+            Some(Ok(v)) => {
+                self.put(res, out, Some(v));
+                self.answer(res)
+            }
+            Some(Err(kind)) => {
+                self.put(res, out, None);
+                self.answer(res).replace("scalar=skip", &format!("scalar=DIFF({})", panic_str(kind)))
+            }
+            None => {
+                self.put(res, out, None);
+                self.answer(res)
+            }
+        }
     }
 
     pub fn step(&mut self, toks: &[&str]) -> String {
@@ -2387,6 +2511,17 @@ enum Case {
     None,
     Fp(CaseG<Fp>),
     Rat(CaseG<Rat>),
+    F64(CaseG<f64>),
+}
+
+/// `f64` cases: the numbers are compared inside the harness only (`scalar=`), not printed
+fn without_numbers(answer: String) -> String {
+    answer
+        .split(' ')
+        .filter(|t| !t.starts_with("v="))
+        .map(|t| if t.starts_with("d=") { "d=*" } else { t })
+        .collect::<Vec<_>>()
+        .join(" ")
 }
 
 pub struct Runner {
@@ -2407,6 +2542,7 @@ impl Runner {
             let n: usize = toks.get(2).and_then(|s| s.parse().ok()).unwrap_or(1);
             self.case = match toks.get(3) {
                 Some(&"rat") => Case::Rat(CaseG::<Rat>::new(n)),
+                Some(&"f64") => Case::F64(CaseG::<f64>::new(n)),
                 _ => Case::Fp(CaseG::<Fp>::new(n)),
             };
             return "ok".into();
@@ -2415,6 +2551,7 @@ impl Runner {
             Case::None => "bad-op".into(),
             Case::Fp(c) => c.step(toks),
             Case::Rat(c) => c.step(toks),
+            Case::F64(c) => without_numbers(c.step_lite(toks)),
         }
     }
 }
